@@ -174,6 +174,10 @@ func resolveClient(p *Prog) *clientModel {
 			}
 		}
 	}
+	if m.Put == nil {
+		// renamed, or turned into a method of the transaction: found by its role
+		m.Put = p.Fn("putClientTransaction")
+	}
 	if m.Acquire == nil {
 		// the acquisition helper may have been inlined by hand: Start then takes the object from the pool itself
 		direct := false
